@@ -48,7 +48,8 @@ def mangle(s):
         # Replace illegal characters with their Unicode character
         # names, or hexadecimal if they don't have one.
         s = "hyx_" + "".join(
-            c if c != MANGLE_DELIM and ("S" + c).isidentifier()
+            c if MANGLE_DELIM not in unicodedata.normalize("NFKC", c)
+                and ("S" + c).isidentifier()
             # We prepend the "S" because some characters aren't
             # allowed at the start of an identifier.
             else "{0}{1}{0}".format(
